@@ -35,14 +35,27 @@ def build(r):
     size = r.randint(1, 40)
     ntags = r.randint(1, 5)
     tags = [-1] if r.random() < 0.15 else r.sample(range(0, 9), ntags)
-    valstyle = r.choice(["grid", "float", "mixed"])
+    valstyle = r.choice(["grid", "float", "mixed", "near_ties", "near_ties"])
+    # "near_ties": recorded costs that differ by less than the precision declared on the individuals (a converged run): the
+    # queries answer from the recorded costs, whatever their rounded, signed working copies look like; these individuals get
+    # their working copies from the library's own calc_signed_costs, as Job.evaluate does
+    prec = r.choice([7, 7, 2, 1, 0, 4])
+    step = 10.0 ** -(prec + r.randint(1, 3))
+    bases = [float(r.randint(-2, 3)) for _ in range(m)]
+    signs = [1 if c == "minimize" else -1 for c in crit]
     inds = []
     for _ in range(size):
         vec = [float(r.randint(0, 3)) if valstyle != "float" and r.random() < 0.8 else r.uniform(-5, 5) for _ in range(n)]
         costs = [float(r.randint(0, 3)) if valstyle != "float" and r.random() < 0.8 else r.uniform(-5, 5) for _ in range(m)]
         ind = Individual(vec)
-        ind.costs = costs
-        ind.costs_signed = [c * (1 if crit[j] == "minimize" else -1) for j, c in enumerate(costs)] + [0]
+        if valstyle == "near_ties":
+            costs = [b + r.randint(-4, 4) * step if r.random() < 0.85 else b + r.randint(1, 3) for b in bases]
+            ind.costs = costs
+            ind.features["precision"] = prec
+            ind.calc_signed_costs(signs)
+        else:
+            ind.costs = costs
+            ind.costs_signed = [c * (1 if crit[j] == "minimize" else -1) for j, c in enumerate(costs)] + [0]
         ind.population_id = r.choice(tags)
         ind.features["front_number"] = r.choice([1, 1, 2, 3])
         inds.append(ind)
